@@ -722,6 +722,49 @@ def decOp (ws ows : List String) : String :=
     | _, _, _ => s!"ok dec:{kind}/ok"
   | _ => "bad-op dec"
 
+/-! ## C16: krill's own string helpers (`strfn <name> x<hex-utf8>`)
+
+`panic` is always `FAIL oracle no_panic`.  Where a checked model exists the result kind is
+compared with it: `seems_global_uri` (on the string itself), `seems_global_uri_rsync|https` (on
+the authority the URI type handed to the function, echoed as `auth=x<hex>`; `reject` = the
+third-party URI parser refused the string), `roa_aggregate_key`.  The model's `none` (it would
+panic) is shown as `panic`. -/
+
+def hexString (w : String) : Option String :=
+  (hexDecode (w.drop 1).toString).bind String.fromUTF8?
+
+def strfnOp (ws ows : List String) : String :=
+  let name := ws.getD 1 ""
+  match hexString (ws.getD 2 "") with
+  | none => "bad-op strfn"
+  | some arg =>
+    match ows with
+    | "panic" :: _ => fail "oracle" "no_panic"
+    | "ok" :: kind :: rest =>
+      let sgu (s : String) : String :=
+        match seemsGlobalUri s.toList with
+        | none => "panic"
+        | some b => toString b
+      let expected : Option String :=
+        if name == "seems_global_uri" then some (sgu arg)
+        else if name == "seems_global_uri_rsync" || name == "seems_global_uri_https" then
+          if kind == "reject" then none
+          else match (kv? rest "auth").bind hexString with
+            | some a => some (sgu a)
+            | none => some "bad-auth"
+        else if name == "roa_aggregate_key" then
+          some (match roaAggregateKeyFromStr arg.toList with
+            | none => "panic"
+            | some none => "none"
+            | some (some _) => "some")
+        else none
+      match expected with
+      | some e =>
+        if e == kind then s!"ok strfn:{name}/{kind}"
+        else fail "model" s!"strfn {name} expected [{e}] observed [{kind}]"
+      | none => s!"ok strfn:{name}/{kind}"
+    | _ => "bad-op strfn"
+
 def step (_ : Unit) (line : String) : Unit × String :=
   let (opS, obsS) := splitObs line
   let ws := words opS
@@ -742,6 +785,7 @@ def step (_ : Unit) (line : String) : Unit × String :=
     | some "ana" => anaOp ws ows
     | some "msp" => mspOp ws ows
     | some "dec" => decOp ws ows
+    | some "strfn" => strfnOp ws ows
     | _ => "bad-op " ++ opS
   ((), r)
 
